@@ -34,7 +34,11 @@ Proof. exact log_spacing_reach. Qed.
 Print Assumptions C02_sliding_log_spacing.
 
 (* Ok(ZERO) from try_acquire means exactly "a permit was consumed" (the equivalence the
-   upstream acquire() got wrong), for all three window types ... *)
+   upstream acquire() got wrong), for all three window types, for every refresh_period incl.
+   Duration::MAX and every creation instant [origin c] of the limiter on the Instant axis: the
+   model's Instant is bounded ([instant_max]) and the sliding log's checked_add failing is a
+   reachable branch (C02_log_unrepresentable_expiry below; until fix 3a55d77 that branch answered
+   ZERO and every call was admitted) ... *)
 Theorem C02_ok_zero_iff_consumed :
   forall (c : cfg) (t : Z) (l : lim),
     wfc c ->
@@ -89,3 +93,16 @@ Theorem C02_admission_is_start :
     started (snd (poll c s i)) = true /\ entered (fst (poll c s i)) i = entered s i + 1.
 Proof. exact consumed_permit_starts. Qed.
 Print Assumptions C02_admission_is_start.
+
+(* Sliding log whose window end cannot be represented as an Instant (refresh_period = Duration::MAX, or
+   beyond about 2^63 s from the limiter's creation): a full log never admits - the call is rejected, or,
+   only when timeout_duration is Duration::MAX as well, told to wait Duration::MAX; the admission
+   history is unchanged (fix 3a55d77). [x :: rest] is the log after pruning, x its oldest entry. *)
+Theorem C02_log_unrepresentable_expiry :
+  forall (c : cfg) (t : Z) (l : lim) (x : Z) (rest : list Z),
+    prune c t (rlog l) = x :: rest -> limit c <= Z.of_nat (length (x :: rest)) ->
+    instant_max < origin c + x + period c ->
+    snd (log_try c t l) = (if timeout c <? dur_max then AErr else AOk (Some (dur_max, 1))) /\
+    adms (fst (log_try c t l)) = adms l.
+Proof. exact log_unrepresentable_expiry. Qed.
+Print Assumptions C02_log_unrepresentable_expiry.
